@@ -25,8 +25,8 @@ SPEC = dict(
     property="C34",
     component="usage",
     props_module="Refinery.Props.C34",
-    quick=dict(cases=2000, len=40, shards=4),
-    thorough=dict(cases=96000, len=60, shards=16),
+    quick=dict(cases=1200, len=40, shards=4),
+    thorough=dict(cases=64000, len=60, shards=16),
     nontrivial=nontrivial,
     rule="cases = random histories on the real usageTracker behind a real Agent.sendUsageReport with a scripted OpAMP client: "
          "cumulative readings for the 4 signals (unchanged readings, zero readings, big values; counter restarts in 15% of cases), "
